@@ -15,6 +15,8 @@ RULE = ("Cases = (kind, matrix, k or s): kind 'bu' / 'bd' 0/1 graphs (complete e
         "routines are checked on every enumerated graph. Non-trivial = the core is non-empty and smaller than the set of non-isolated nodes "
         "(so something was peeled and something survived); distinct by hash of (kind, matrix, k).")
 BOUNDS = {"exhaustive_quick": "graphs n<=5, digraphs n<=3", "exhaustive_thorough": "graphs n<=6, digraphs n<=4", "random_n": "3..25"}
+# units additionally driven by libFuzzer coverage feedback through hypothesis.fuzz_one_input (bctverif/fuzz.py)
+FUZZ_UNITS = {"quick": ["random-binary"], "thorough": ["random-binary"]}
 MIN_NONTRIVIAL = {"quick": 300, "thorough": 3000}
 
 
